@@ -3,7 +3,7 @@ import json
 
 def run(ctx):
     # the oracle: elimination-based invariant factors / modular ranks agree with gcds of minors; universal coefficients on small pairs
-    ctx.tlc_mc("MC_LinAlg", "MC_LinAlg.cfg", workers=1, coverage=False, timeout=900)
+    ctx.tlc_mc("MC_LinAlg", "MC_LinAlg.cfg", workers=1, coverage=False, timeout=900, cache=True)
     trace = ctx.path("trace.ndjson")
     summ, _, _ = ctx.yv("c07", "record", "--seed", ctx.seed, "--tier", ctx.tier, "--out", trace, timeout=3000)
     rec = summ["record"]
